@@ -59,12 +59,13 @@ var straceLine = regexp.MustCompile(`^\d+\s+(\w+)\((.*)\)\s+=\s+(-?\d+)(?:\s+(\w
 
 // normaliseTrace maps the strace log between the two markers to the model's op alphabet.
 // Returns the ops and the number of counted system calls that precede the begin marker.
-func normaliseTrace(path, db string) (ops []string, before int, err error) {
+func normaliseTrace(path, db string) (ops []string, inj []string, err error) {
 	f, err := os.Open(path)
 	if err != nil {
-		return nil, 0, err
+		return nil, nil, err
 	}
 	defer f.Close()
+	ordinal := map[string]int{} // per system call name: invocations by the main thread so far (strace counts `when=` per call name)
 	fds := map[string]string{}
 	in := false
 	sc := bufio.NewScanner(f)
@@ -73,8 +74,32 @@ func normaliseTrace(path, db string) (ops []string, before int, err error) {
 	for _, s := range strings.Split(fsOpSyscalls, ",") {
 		counted[s] = true
 	}
+	// pass 1: join "<unfinished ...>" / "<... resumed>" pairs and find the thread that runs the write-out
+	var lines []string
+	pending := map[string]string{}
+	mainPid := ""
 	for sc.Scan() {
 		line := sc.Text()
+		pid := strings.SplitN(line, " ", 2)[0]
+		if strings.HasSuffix(line, "<unfinished ...>") {
+			pending[pid] = strings.TrimSuffix(line, " <unfinished ...>")
+			continue
+		}
+		if i := strings.Index(line, "<... "); i >= 0 {
+			if j := strings.Index(line, " resumed>"); j > i {
+				line = pending[pid] + line[j+len(" resumed>"):]
+				delete(pending, pid)
+			}
+		}
+		if strings.Contains(line, "/verif-marker-begin") {
+			mainPid = pid
+		}
+		lines = append(lines, line)
+	}
+	for _, line := range lines {
+		if !strings.HasPrefix(line, mainPid+" ") {
+			continue // only the (locked) main thread performs the write-out; `when=N` counts per thread
+		}
 		if strings.Contains(line, "/verif-marker-begin") {
 			in = true
 			continue
@@ -87,15 +112,14 @@ func normaliseTrace(path, db string) (ops []string, before int, err error) {
 			continue
 		}
 		name, args, ret, errno := m[1], m[2], m[3], m[4]
-		if !in {
-			if counted[name] {
-				before++
-			}
-			continue
-		}
 		if !counted[name] {
 			continue
 		}
+		ordinal[name]++
+		if !in {
+			continue
+		}
+		nops := len(ops)
 		rel := func(p string) string {
 			p = strings.Trim(p, `"`)
 			r, e := filepath.Rel(db, p)
@@ -149,8 +173,11 @@ func normaliseTrace(path, db string) (ops []string, before int, err error) {
 		case "unlinkat":
 			ops = append(ops, "unlink:"+res)
 		}
+		if len(ops) > nops {
+			inj = append(inj, fmt.Sprintf("%s:signal=SIGKILL:when=%d", name, ordinal[name]))
+		}
 	}
-	return ops, before, nil
+	return ops, inj, nil
 }
 
 func copyTree(src, dst string) error {
@@ -159,12 +186,12 @@ func copyTree(src, dst string) error {
 
 // runChildWriteOut runs write-out w in a child under strace; killAt < 0: no injection.
 // Returns the normalised op list (only meaningful without injection) and the child's status.
-func runChildWriteOut(db string, w WriteOut, killAt int, inject string, work string) (ops []string, before int, status string) {
-	trace := filepath.Join(work, fmt.Sprintf("trace-%d.txt", killAt))
+func runChildWriteOut(db string, w WriteOut, inject string, work string) (ops []string, inj []string, status string) {
+	trace := filepath.Join(work, "trace-"+strings.NewReplacer(":", "_", "=", "_").Replace(inject)+".txt")
 	_ = os.Remove(trace)
 	args := []string{"-f", "-o", trace, "-e", "trace=%file,%desc"}
-	if killAt >= 0 {
-		args = append(args, "-e", fmt.Sprintf("inject=%s:%s:when=%d", fsOpSyscalls, inject, killAt))
+	if inject != "" {
+		args = append(args, "-e", "inject="+inject)
 	}
 	args = append(args, os.Args[0], "__child", "writeout", db, w.Iface, strconv.FormatInt(w.TS, 10), strconv.FormatUint(w.Drops, 10), flowsField(w.Flows))
 	cmd := exec.Command("strace", args...)
@@ -174,7 +201,7 @@ func runChildWriteOut(db string, w WriteOut, killAt int, inject string, work str
 	if err != nil && status == "" {
 		status = "killed"
 	}
-	ops, before, _ = normaliseTrace(trace, db)
+	ops, inj, _ = normaliseTrace(trace, db)
 	return
 }
 
@@ -225,15 +252,15 @@ func c04Run(f []string) string {
 		// dry run on a copy: the full op list of this write-out in the current state
 		dry := filepath.Join(work, "dry")
 		_ = copyTree(db, dry)
-		ops, before, st := runChildWriteOut(dry, w, -1, "", work)
+		ops, inj, st := runChildWriteOut(dry, w, "", work)
 		_ = os.RemoveAll(dry)
 		out = append(out, "ops="+listField(ops), "dry="+st)
 		// real run, killed at the entry of the crashN-th counted system call of the write-out
 		if crashN < len(ops) {
-			_, _, st = runChildWriteOut(db, w, before+crashN+1, "signal=SIGKILL", work)
+			_, _, st = runChildWriteOut(db, w, inj[crashN], work)
 			out = append(out, "crashed="+st)
 		} else {
-			_, _, st = runChildWriteOut(db, w, -1, "", work)
+			_, _, st = runChildWriteOut(db, w, "", work)
 			out = append(out, "crashed="+st)
 		}
 		out = append(out, "q1="+queryRows(db, "any", first, last, ""), "l1="+listSummary(db, first, last))
@@ -276,7 +303,7 @@ func c04Gen(r *Rand, tier string) []Case {
 		// every crash point of every write-out (the model says how many ops each has; 40 is an upper bound,
 		// indices beyond the op list mean "not killed")
 		for k := range ws {
-			for n := 0; n <= 34; n++ {
+			for n := 0; n <= 30; n++ {
 				cs = append(cs, Case{Line: fmt.Sprintf("C04 %s %d.%d", hist, k, n), Class: fmt.Sprintf("crash:w%d/%d", k, nw), NonTrivial: true})
 			}
 		}
@@ -291,5 +318,17 @@ func init() {
 		Rule: "seeded histories of 2-4 real write-outs (DBWriter.Write; 1-2 interfaces, day roll-over 1 in 5, 0-3 flows, IPv4/IPv6) and, for EVERY write-out k and EVERY file-operation index n of it (mkdirat/openat/write/renameat/fchmodat/unlinkat, enumerated from a strace dry run), a run in which the writing child process is killed by SIGKILL at the entry of its n-th operation (strace fault injection); afterwards the real query engine and ReadMetadata run on the damaged database, the remaining write-outs are applied and both run again. The normalised system-call trace must equal the model's op list. Non-trivial: every crash case. Distinct = distinct (history, k, n).",
 		Gen:  c04Gen,
 		Run:  c04Run,
+		Parallel: 8,
 	})
+}
+
+func init() {
+	children["normtrace"] = func(a []string) int {
+		ops, inj, err := normaliseTrace(a[0], a[1])
+		fmt.Println(inj, err)
+		for _, o := range ops {
+			fmt.Println(o)
+		}
+		return 0
+	}
 }
